@@ -19,6 +19,8 @@ inductive Op where
   | release (c : Conn) (n : Name)               -- ReleaseName(n) sent by c
   | getOwner (c : Conn) (n : Name)              -- GetNameOwner(n) sent by c
   | listQueued (c : Conn) (n : Name)            -- ListQueuedOwners(n) sent by c
+  | other (c : Conn)                            -- any other traffic of c through the bus (AddMatch, RemoveMatch,
+                                                -- GetId, a message routed to a peer): must not touch the name table
   deriving DecidableEq, Repr
 
 end Txdbus.Bus
